@@ -162,13 +162,15 @@ class OpenSystem:
                 # Time dependent standard Refield
 
                 ham.protect_basis()
-                with eigenbasis_of(ham):
-                    relaxT = TDRedfieldRelaxationTensor(ham, sbi,
+                try:
+                    with eigenbasis_of(ham):
+                        relaxT = TDRedfieldRelaxationTensor(ham, sbi,
                                         cutoff_time=relaxation_cutoff_time,
                                         as_operators=as_operators)
-                    if secular_relaxation:
-                        relaxT.secularize()
-                ham.unprotect_basis()
+                        if secular_relaxation:
+                            relaxT.secularize()
+                finally:
+                    ham.unprotect_basis()
 
             else:
 
@@ -177,15 +179,17 @@ class OpenSystem:
 
                 ham.protect_basis()
 
-                with eigenbasis_of(ham):
-                    relaxT = RedfieldRelaxationTensor(ham, sbi,
+                try:
+                    with eigenbasis_of(ham):
+                        relaxT = RedfieldRelaxationTensor(ham, sbi,
                                             cutoff_time=relaxation_cutoff_time,
                                             as_operators=as_operators)
 
-                    if secular_relaxation:
-                        relaxT.secularize()
+                        if secular_relaxation:
+                            relaxT.secularize()
 
-                ham.unprotect_basis()
+                finally:
+                    ham.unprotect_basis()
 
 
             self.RelaxationTensor = relaxT
